@@ -2,13 +2,17 @@
 """Copies the artefacts a seeding sub-session left in /var/tmp/seed/<P>/_seed/<k>/ into /verif/seeded/<P>-<k>/ (candidate until confirmed)."""
 import json, os, shutil, sys
 V = os.path.dirname(os.path.dirname(os.path.abspath(__file__)))
-for P in sys.argv[1:]:
+for arg in sys.argv[1:]:
+    P, off = (arg.split(":") + ["0"])[:2]      # "C03:3" imports _seed/1..3 as C03-4..6 (second round)
+    off = int(off)
     base = "/var/tmp/seed/%s/_seed" % P
     for k in sorted(os.listdir(base)):
         d = os.path.join(base, k)
         if not (os.path.isdir(d) and os.path.exists(os.path.join(d, "patch.diff"))):
             continue
-        out = os.path.join(V, "seeded", "%s-%s" % (P, k))
+        if not k.isdigit():
+            continue
+        out = os.path.join(V, "seeded", "%s-%d" % (P, int(k) + off))
         os.makedirs(out, exist_ok=True)
         for f in ("patch.diff", "demo.cpp", "demo.txt", "meta.json"):
             if os.path.exists(os.path.join(d, f)):
@@ -16,6 +20,8 @@ for P in sys.argv[1:]:
         mp = os.path.join(out, "meta.json")
         m = json.load(open(mp)) if os.path.exists(mp) else {}
         m["property"] = P
+        if off:
+            m["round"] = 2
         m.setdefault("confirmed", {"compiles_and_suite_passes": None, "demo_fails_on_changed_passes_on_unchanged": None})
         json.dump(m, open(mp, "w"), indent=1)
         print("imported", out)
